@@ -125,19 +125,39 @@ def enabled (sh : Shared) (pc : Pc) : Bool :=
 
 def segOfV (N v : Nat) : Nat := (v - 1) / N
 
-/-- after the WAL step: delete what became unreferenced and is not protected, or go on -/
-def afterApply (tid : Tid) (sh : Shared) (pending : List Bytes) (t : Tail) : Shared × Pc :=
-  match pending with
-  | [] => ({ sh with lockIntents := none }, .apUnlocked t)
-  | _ => (sh, .apUnlink pending t)
-where _u := tid
+structure StepOut where
+  sh : Shared
+  pc : Pc
+  done : Option Res := none       -- the current operation finished with this result
 
-/-- the continuation once the intents lock has been released after an apply -/
-def afterUnlocked (t : Tail) : Pc :=
-  if t.rolled then .ckState t
-  else match t.own with
-    | some (k, h) => .guardDrop k h true t.res
-    | none => .idle   -- (result recorded by the caller)
+/-- index/intent bookkeeping of the WAL step (no lock changes): new index, version, and for a
+    put the removal of its key entry and the release of its protection -/
+def bookkeep (sh : Shared) (idx' : IndexState Bytes) (own : Option (Bytes × Bytes)) : Shared :=
+  match own with
+  | some (k, h) => { sh with idx := idx', next := sh.next + 1, byKey := bkDel sh.byKey k,
+                             prot := unprotect sh.prot h }
+  | none => { sh with idx := idx', next := sh.next + 1 }
+
+@[simp] theorem bookkeep_lockIntents (sh : Shared) (i : IndexState Bytes) (o : Option (Bytes × Bytes)) :
+    (bookkeep sh i o).lockIntents = sh.lockIntents := by
+  unfold bookkeep; split <;> rfl
+@[simp] theorem bookkeep_lockState (sh : Shared) (i : IndexState Bytes) (o : Option (Bytes × Bytes)) :
+    (bookkeep sh i o).lockState = sh.lockState := by
+  unfold bookkeep; split <;> rfl
+
+/-- the WAL step: log + apply under state.write and wal, release both, then either start
+    deleting what became unreferenced and is not protected, or release the intents lock -/
+def applyStep (sh : Shared) (op : Op Bytes) (own : Option (Bytes × Bytes)) (res : Res) : StepOut :=
+  let preSeg := if sh.next > 1 then segOfV sh.N (sh.next - 1) else 0
+  let rolled := preSeg != segOfV sh.N sh.next
+  match applyOp sh.kind.lt sh.idx op with
+  | .error _ => ⟨{ sh with lockState := none, lockIntents := none }, .idle, some .panic⟩
+  | .ok (idx', unref) =>
+    let sh2 := bookkeep sh idx' own
+    let pending := unref.filter (fun h => !isProtected sh2.prot h)
+    if pending.isEmpty then
+      ⟨{ sh2 with lockState := none, lockIntents := none }, .apUnlocked ⟨own, res, rolled⟩, none⟩
+    else ⟨{ sh2 with lockState := none }, .apUnlink pending ⟨own, res, rolled⟩, none⟩
 
 /-- start the next operation of a thread (runs up to its first yield point; staging a blob
     touches only the private staging file) -/
@@ -151,11 +171,6 @@ def startOp (H : Bytes → Bytes) : COp → Pc
   | .cleanup hs => .orIntents hs 0 0
 where _h := H
 
-structure StepOut where
-  sh : Shared
-  pc : Pc
-  done : Option Res := none       -- the current operation finished with this result
-
 /-- one scheduling step of a thread parked at `pc` (must be `enabled`) -/
 def stepPc (H : Bytes → Bytes) (tid : Tid) (sh : Shared) : Pc → StepOut
   | .idle => ⟨sh, .idle, none⟩
@@ -168,38 +183,17 @@ def stepPc (H : Bytes → Bytes) (tid : Tid) (sh : Shared) : Pc → StepOut
     ⟨{ sh with cas := casPut sh.cas h c }, .apIntents (.put k h c.length) (some (k, h)) .ok, none⟩
   | .apIntents op own res => ⟨{ sh with lockIntents := some tid }, .apState op own res, none⟩
   | .apState op own res => ⟨{ sh with lockState := some tid }, .apWal op own res, none⟩
-  | .apWal op own res =>
-    let preSeg := if sh.next > 1 then segOfV sh.N (sh.next - 1) else 0
-    let rolled := preSeg != segOfV sh.N sh.next
-    match applyOp sh.kind.lt sh.idx op with
-    | .error _ => ⟨{ sh with lockState := none, lockIntents := none }, .idle, some .panic⟩
-    | .ok (idx', unref) =>
-      let sh1 := { sh with idx := idx', next := sh.next + 1, lockState := none }
-      let sh2 := match own with
-        | some (k, _) => { sh1 with byKey := bkDel sh1.byKey k }
-        | none => sh1
-      let pending := unref.filter (fun h => !isProtected sh2.prot h)
-      let (sh3, pc) := afterApply tid sh2 pending ⟨own, res, rolled⟩
-      ⟨sh3, pc, none⟩
-  | .apUnlink pending t =>
-    match pending with
-    | [] => ⟨{ sh with lockIntents := none }, .apUnlocked t, none⟩
-    | h :: rest =>
-      let sh1 := { sh with cas := casDel sh.cas h }
-      match rest with
-      | [] => ⟨{ sh1 with lockIntents := none }, .apUnlocked t, none⟩
-      | _ => ⟨sh1, .apUnlink rest t, none⟩
+  | .apWal op own res => applyStep sh op own res
+  | .apUnlink [] t => ⟨{ sh with lockIntents := none }, .apUnlocked t, none⟩
+  | .apUnlink [h] t => ⟨{ sh with cas := casDel sh.cas h, lockIntents := none }, .apUnlocked t, none⟩
+  | .apUnlink (h :: h' :: rest) t => ⟨{ sh with cas := casDel sh.cas h }, .apUnlink (h' :: rest) t, none⟩
   | .apUnlocked t =>
     if t.rolled then ⟨sh, .ckState t, none⟩
-    else match t.own with
-      | some (k, h) => ⟨sh, .guardDrop k h true t.res, none⟩
-      | none => ⟨sh, .idle, some t.res⟩
+    else ⟨sh, .idle, some t.res⟩    -- (a committed guard has nothing left to release)
   | .ckState t => ⟨{ sh with lockState := some tid }, .ckWal t, none⟩
   | .ckWal t =>
-    let sh1 := { sh with lockState := none }       -- snapshot + prune: no effect on this model
-    match t.own with
-    | some (k, h) => ⟨sh1, .guardDrop k h true t.res, none⟩
-    | none => ⟨sh1, .idle, some t.res⟩
+    -- snapshot + prune: no effect on this model
+    ⟨{ sh with lockState := none }, .idle, some t.res⟩
   | .guardDrop k h committed res =>
     let prot' := unprotect sh.prot h
     let byKey' := if committed then sh.byKey
@@ -218,7 +212,7 @@ def stepPc (H : Bytes → Bytes) (tid : Tid) (sh : Shared) : Pc → StepOut
     | none => ⟨sh, .idle, some .absent⟩
     | some item =>
       match casGet sh.cas item.hash with
-      | none => ⟨sh, .idle, some .missing⟩
+      | none => ⟨sh, .rdOpened .missing, none⟩
       | some c => ⟨sh, .rdOpened (.found c), none⟩
   | .rdOpened r => ⟨sh, .idle, some r⟩
   | .orIntents hs del skip =>
@@ -238,29 +232,29 @@ def stepPc (H : Bytes → Bytes) (tid : Tid) (sh : Shared) : Pc → StepOut
     | [] => ⟨sh, .idle, some (.cleaned del skip)⟩
     | _ => ⟨sh, .orIntents rest del skip, none⟩
 
-/-- schedule thread `tid` for one step. `none` if it has nothing to do or is blocked. -/
+/-- schedule thread `tid` for one step. `none` if it has nothing to do or is blocked.
+    An idle thread starts its next operation and runs up to that operation's first yield point
+    (an abandoned transaction has none: it completes within the start step). -/
 def step (H : Bytes → Bytes) (s : Sys) (tid : Tid) : Option Sys :=
   match s.threads[tid]? with
   | none => none
   | some th =>
-    -- an idle thread starts its next operation (that start is part of this step)
-    let (th, fresh) := match th.pc, th.ops with
-      | .idle, op :: rest => ({ th with ops := rest, pc := startOp H op }, some op)
-      | _, _ => (th, none)
-    match th.pc, fresh with
-    | .idle, none => none
-    | .idle, some (.abort _ _) =>
-      some { s with threads := s.threads.set tid { th with results := th.results ++ [.ok] } }
-    | .idle, some _ => none
-    | pc, some _ =>
-      -- freshly started: parked at its first yield point, nothing executed yet
-      some { s with threads := s.threads.set tid { th with pc := pc } }
-    | pc, none =>
+    match th.pc with
+    | .idle =>
+      match th.ops with
+      | [] => none
+      | op :: rest =>
+        match startOp H op with
+        | .idle =>
+          let th' : Thread := { th with ops := rest, results := th.results ++ [.ok] }
+          some { s with threads := s.threads.set tid th' }
+        | pc =>
+          let th' : Thread := { th with ops := rest, pc := pc }
+          some { s with threads := s.threads.set tid th' }
+    | pc =>
       if !enabled s.sh pc then none else
       let o := stepPc H tid s.sh pc
-      let th' := match o.done with
-        | some r => { th with pc := .idle, results := th.results ++ [r] }
-        | none => { th with pc := o.pc }
+      let th' : Thread := { th with pc := o.pc, results := th.results ++ o.done.toList }
       some { sh := o.sh, threads := s.threads.set tid th' }
 
 def run (H : Bytes → Bytes) (s : Sys) : List Tid → Option Sys
